@@ -416,6 +416,13 @@ def decodeBytes (b : Bytes) (cap : Nat) : DOut DecParam × Nat :=
   let r := decodeRd (Rd.newBytes b cap)
   (r.1, r.2.readLen)
 
+/-- DecodeFromBytes(ctx, bs): `in := NewBytesReader(bs); param, err = Decode(ctx, in); _ = in.Release(nil)`:
+    the result of Decode; the reader is released and dropped -/
+def decodeFromBytes (b : Bytes) (cap : Nat) : DOut DecParam :=
+  let r := decodeRd (Rd.newBytes b cap)
+  let _released := r.2.release
+  r.1
+
 /-- the same over the plain cursor -/
 def decodeCur (b : Bytes) : DOut DecParam × Nat :=
   let r := decodeG Cur.next ⟨b, 0⟩
